@@ -79,7 +79,7 @@ func writePrograms(path string, ps []*prog.Program) error {
 
 // ExportSchedules lets TLC (TokenGameExport or a compatible module)
 // enumerate all maximal environment schedules of the programs.
-func (c *Ctx) ExportSchedules(module string, ps []*prog.Program, maxSteps int, extraCfg string, invariants []string) ([]drive.Schedule, TLCResult, error) {
+func (c *Ctx) ExportSchedules(module string, ps []*prog.Program, maxSteps int, extraCfg string, invariants []string, simulate int) ([]drive.Schedule, TLCResult, error) {
 	dir := c.sub("export")
 	progFile := filepath.Join(dir, "programs.json")
 	if err := writePrograms(progFile, ps); err != nil {
@@ -92,7 +92,13 @@ func (c *Ctx) ExportSchedules(module string, ps []*prog.Program, maxSteps int, e
 	if len(invariants) > 0 {
 		cfg += "INVARIANTS " + strings.Join(invariants, " ") + "\n"
 	}
-	res, err := RunTLC(dir, module, cfg, TLCOpts{Workers: 1, Timeout: 20 * time.Minute})
+	topts := TLCOpts{Workers: 1, Timeout: 20 * time.Minute}
+	if simulate > 0 {
+		topts.Simulate = fmt.Sprintf("num=%d", simulate)
+		topts.Depth = maxSteps + 2
+		topts.Seed = c.Seed
+	}
+	res, err := RunTLC(dir, module, cfg, topts)
 	if err != nil {
 		return nil, res, err
 	}
@@ -100,7 +106,12 @@ func (c *Ctx) ExportSchedules(module string, ps []*prog.Program, maxSteps int, e
 		return nil, res, fmt.Errorf("token game invariant %s violated on the exported family (spec-level problem):\n%s", res.Violated, tail(res.Out, 2500))
 	}
 	var out []drive.Schedule
+	seen := map[string]bool{}
 	err = ReadNDJSON(outFile, func(line []byte) error {
+		if seen[string(line)] {
+			return nil
+		}
+		seen[string(line)] = true
 		s, err := drive.ParseTLCSchedule(line)
 		if err != nil {
 			return err
